@@ -16,6 +16,7 @@ Does not decide: pranswer/rollback, side effects on objects other than the five 
 from __future__ import annotations
 
 import ast
+import itertools
 from types import SimpleNamespace
 from typing import Any, Dict, List, Optional, Set, Tuple
 
@@ -430,3 +431,57 @@ def run(rep: Report, prog: Program, tier: str) -> None:
     else:
         rep.fail(mk_finding(prog, PROP, "C14-EARLY", sl_f, awaits_between[0], "setLocalDescription suspends between validating the description and publishing the new signalling state: a call made "
                             "in that window (a remote offer, close()) is validated against the stale state", construct="await before state update"))
+
+    # ---------------- C14-REF: the answer is matched against the *pending* offer (after a role switch the current descriptions are the previous round's)
+    rep.rule("C14-REF", "an answer is matched against the pending offer of the other side, not against the previous round", min_instances=8)
+    match_ifs = [n for n in validate.node.body if isinstance(n, ast.If) and "answer" in unparse(n.test) and any(isinstance(x, ast.Raise) for x in ast.walk(n)) and ".media" in unparse(n)]
+    if len(match_ifs) != 1:
+        raise AnalysisError("__validate_description: the answer / offer media-section match block not found at the top level")
+    mblock = match_ifs[0]
+
+    def sd_(*sections):
+        return SimpleNamespace(media=[SimpleNamespace(kind=k, rtp=SimpleNamespace(muxId=m)) for k, m in sections])
+    old_round = sd_(("audio", "0"))
+    new_offer = sd_(("audio", "0"), ("video", "1"))
+    acc_l, acc_r = prog.func(PC + ".__localDescription"), prog.func(PC + ".__remoteDescription")
+
+    def hk7(call, ev):
+        nm = unparse(call.func)
+        me_ = ev.env.get("self")
+        if nm in ("self.__localDescription", "self.__remoteDescription"):
+            fi_ = acc_l if nm.endswith("__localDescription") else acc_r
+            sub = Evaluator(prog, fi_.module, fi_.cls, {"self": me_}, hk7)
+            try:
+                sub.exec_block(fi_.node.body)
+            except Ret as r:
+                return r.value
+            return None
+        return NotImplemented
+    for is_local, typ in itertools.product((True, False), ("answer", "pranswer")):
+        for label, pending, current, answer, want_ok in (
+                ("answer to the pending offer, previous round differs", new_offer, old_round, sd_(("audio", "0"), ("video", "1")), True),
+                ("answer that only matches the previous round", new_offer, old_round, sd_(("audio", "0")), False),
+                ("first round (nothing current yet)", new_offer, None, sd_(("audio", "0"), ("video", "1")), True),
+                ("first round, truncated answer", new_offer, None, sd_(("audio", "0")), False)):
+            # a local answer answers the remote offer and vice versa
+            slots = {"__pendingLocalDescription": None, "__currentLocalDescription": None, "__pendingRemoteDescription": None, "__currentRemoteDescription": None}
+            side = "Remote" if is_local else "Local"
+            slots[f"__pending{side}Description"] = pending
+            slots[f"__current{side}Description"] = current
+            me7 = SimpleNamespace(**slots)
+            answer.type = typ
+            ev7 = Evaluator(prog, validate.module, validate.cls, {"self": me7, "description": answer, "is_local": is_local}, hk7)
+            try:
+                ev7.exec_stmt(mblock)
+                accepted = True
+            except Raised as ex:
+                accepted = False if "ValueError" in ex.name else None
+            except Unknown as ex:
+                raise AnalysisError(f"C14-REF cannot evaluate the match block: {ex}")
+            what = f"{'local' if is_local else 'remote'} {typ}: {label}"
+            if accepted == want_ok:
+                rep.ok("C14-REF", what, sample="accepted" if want_ok else "ValueError")
+            else:
+                rep.fail(mk_finding(prog, PROP, "C14-REF", validate, mblock, f"{what}: the description is {'accepted' if accepted else 'rejected'}; it must be "
+                                    f"{'accepted' if want_ok else 'rejected with ValueError'} — the reference must be the pending offer, falling back to the current description only when none is pending",
+                                    construct="answer reference: " + label[:50]))
